@@ -22,7 +22,7 @@ ASSUMPTIONS = [
     'division/remainder claimed only for non-zero divisors',
     'widths: adder/comparators/extension/ite/negate: every operand width pair the translator admits is enumerated in the thorough tier (sign_extension asserts n < 32), a sample in the quick tier; multiplier: stages for every N <= 31 and s (thorough), arithmetic lemmas for every N; divider: n <= 15 is the whole domain (2n-bit internal registers must stay below 32 bits)',
     'monolithic multiplier/divider proofs (everything in-lined) only for small widths: cross-check of the stage-wise argument',
-    'end-to-end formulas: fixed list x 4 declaration contexts (per-formula proofs, bounded in the formula)',
+    'end-to-end formulas: fixed list x 4 declaration contexts (per-formula proofs, bounded in the formula); documented precedence/associativity: one pair per adjacent level of the table in doc/doc.md (list PRECEDENCE)',
     'numerals: digit-string code, exhaustive window only (bounded)',
 ]
 EXPLANATION = (
@@ -145,6 +145,22 @@ def families(tier, seed):
         def run(sh=sh):
             return harness.verify(bn.h_formula(r'@A \/ (b /\ @B)', node_refs={'@A': 'x < y', '@B': 'z = w'}), sh, kind='context')
         out.append(dict(name=f'add_expr with BDD references [{cname}]', run=run, label='per-shape'))
+    # ---- documented precedence / associativity; operator definitions per context
+    sh = Shape(sys=bn.PREC_CONTEXT, name=f'context prec {bn.PREC_CONTEXT}')
+    for plain, right, wrong in bn.PRECEDENCE:
+        def run(sh=sh, a=(plain, right, wrong)):
+            return harness.verify(bn.h_precedence(*a), sh, kind='context')
+        out.append(dict(name=f'precedence: {plain}  ==  {right}', run=run, label='per-shape'))
+    sha = Shape(sys=bn.PREC_CONTEXT, name='automaton prec')
+    for plain, right, wrong in bn.PRECEDENCE_PRIMED:
+        def run(sh=sha, a=(plain, right, wrong)):
+            return harness.verify(bn.h_precedence(*a), sh, kind='automaton')
+        out.append(dict(name=f'precedence (primed): {plain}  ==  {right}', run=run, label='per-shape'))
+    for d1, d2, fml in [('foo == x + y > 3\nbar == foo /\\ b', 'foo == x - y < 2\nbar == foo => ~ b', r'bar \/ (z = 1)'),
+                        ('small == x + 1 <= w', 'small == x * 2 > w', r'small /\ ~ c')]:
+        def run(sh=sh, a=(d1, d2, fml)):
+            return harness.verify(bn.h_two_contexts(*a), sh, kind='context')
+        out.append(dict(name=f'operator definitions are per context: {fml} with {d2!r} after {d1!r} elsewhere', run=run, label='per-shape'))
     for cname in ('nonneg', 'signed'):
         decl = bn.CONTEXTS[cname]
         sh = Shape(sys=decl, name=f'automaton {cname}')
@@ -158,5 +174,5 @@ def families(tier, seed):
 def coverage_extra(results):
     return dict(bounded_parameters=dict(
         operand_widths='quick: sample; thorough: all pairs in [2,30]^2 (adder, comparators), all N <= 31 and stages (multiplier), all n <= 15 (divider): the whole admissible range',
-        formulas='end-to-end list (contracts/bv_nodes.py FORMULAS, PRIMED) x declaration contexts',
+        formulas='end-to-end list (contracts/bv_nodes.py FORMULAS, PRIMED, PRECEDENCE, PRECEDENCE_PRIMED) x declaration contexts',
         numerals='exhaustive window (bounded)'))
